@@ -565,13 +565,13 @@ theorem good_names (c : Circuit) (hc : GoodCircuit c) (g : Gate) (hg : Op.gate g
 
 /-- **the exporter succeeds on the class and its text is the program `programOf c`** -/
 theorem export_parse (c : Circuit) (hc : GoodCircuit c) :
-    ∃ lines, exportCircuit c = .ok lines ∧ parseLines lines = some (programOf c) := by
+    ∃ lines, exportCore c = .ok lines ∧ parseLines lines = some (programOf c) := by
   have h1 := defsLoop_eq c.ops Gen.gateNameToQasm (good_names c hc)
   have hm : ∀ g, Op.gate g ∈ c.ops →
       lookup (Gen.gateNameToQasm ++ (addedNames c.ops Gen.gateNameToQasm).map (fun n => (n, lower n))) g.name =
         some (qasmName g.name) := fun g hg => final_lookup c.ops _ g hg
   have h2 := opsLoop_good c hc _ hm c.ops (fun _ h => h)
-  refine ⟨_, by simp only [exportCircuit, h1, h2]; rfl, ?_⟩
+  refine ⟨_, by simp only [exportCore, h1, h2]; rfl, ?_⟩
   have hd := parseLines_defs (addedNames c.ops Gen.gateNameToQasm) (fun n hn => by
     obtain ⟨h0, g, hg, rfl⟩ := addedNames_not_in _ _ n hn
     rcases good_names c hc g hg with h | h
